@@ -323,7 +323,7 @@ def sequences(quick, seed):
 
 def realise(seq):
     """points (name -> float) whose log likelihoods are ordered like the levels"""
-    names = ['b2', 'B10', 'a_mid']      # appearance order differs from the sorted order: B10 < a_mid < b2 < m_nan < zz_gate
+    names = ['b2', 'B10', 'a.mid']      # appearance order differs from the sorted order: B10 < a.mid < b2 < m_nan < zz_gate
     centers = CENTERS
     dist = {3: 0.5, 2: 1.5, 1: 2.75}
     used = {}
